@@ -94,9 +94,18 @@ func (p *plan) traceCopy() []string {
 
 // ---------------------------------------------------------------- goroutine-dump classifier
 
-// (no bare "semacquire": that is a goroutine held by the runtime itself - GC assist, stop-the-world - not a wait for
-// another goroutine; the sync package's waits carry their own names)
+// (a bare "semacquire" alone does not count: that is also what a goroutine held by the runtime itself shows - GC assist,
+// stop-the-world; see semWait)
 var lockWait = regexp.MustCompile(`\[(sync\.RWMutex\.R?Lock|sync\.Mutex\.Lock|sync\.Cond\.Wait|sync\.WaitGroup\.Wait|chan send)(, \d+ minutes)?\]`)
+
+// semWait: with this toolchain (go1.23) a goroutine inside sync.WaitGroup.Wait shows the bare state "semacquire" - the same
+// state a goroutine shows while the RUNTIME holds it (GC assist, stop-the-world). The two are told apart by the stack: a
+// wait of the sync package goes through sync.runtime_Semacquire, a runtime hold does not.
+var semState = regexp.MustCompile(`^goroutine \d+ \[semacquire(, \d+ minutes)?\]`)
+
+func semWait(first, block string) bool {
+	return semState.MatchString(first) && strings.Contains(block, "sync.runtime_Semacquire")
+}
 
 // libGoroutinesBlocked returns, for goroutines with a library frame on their stack,
 // how many there are and how many are in a lock wait.
@@ -110,7 +119,7 @@ func libGoroutinesBlocked(dump string) (total, blocked int, blockedStacks []stri
 		if i := strings.Index(g, "\n"); i > 0 {
 			first = g[:i]
 		}
-		if lockWait.MatchString(first) {
+		if lockWait.MatchString(first) || semWait(first, g) {
 			blocked++
 			if len(blockedStacks) < 6 {
 				blockedStacks = append(blockedStacks, clipStr(g, 1500))
